@@ -21,7 +21,7 @@ theorem stepLoc_addLocal (l : Loc) (id : Id) (p : Bool) (s0 : Int) (h : LocInv l
     exact okOut_ev (by decide) (by omega) (by omega)
   · have hc : l.tOff + l.max < l.tsize ∧ l.lOff + l.cur < l.lsize := by omega
     simp only [hfull, hc, if_true, Bool.false_eq_true, if_false, and_self]
-    refine ⟨⟨rfl, ?_, ?_, h3, h4, h.sc, h.sm, h.slack, h.fr, h.frN⟩, ?_⟩
+    refine ⟨⟨rfl, ?_, ?_, h3, h4, h.lt, h.chain⟩, ?_⟩
     · simp; omega
     · simp; omega
     · intro o ho
@@ -36,7 +36,7 @@ theorem stepLoc_popN (l : Loc) (n : Nat) (h : LocInv l) :
   have h1 := h.curMax; have h2 := h.maxN; have h3 := h.tFit; have h4 := h.sizes
   have hc : min n l.cur = 0 ∨ l.lOff + l.cur ≤ l.lsize := Or.inr (by omega)
   simp only [stepLoc, hb, hc, if_true, Bool.false_eq_true, if_false]
-  refine ⟨⟨rfl, ?_, h2, h3, h4, h.sc, h.sm, h.slack, h.fr, h.frN⟩, ?_⟩
+  refine ⟨⟨rfl, ?_, h2, h3, h4, h.lt, h.chain⟩, ?_⟩
   · simp; omega
   · intro o ho
     simp only [List.mem_cons, List.mem_map, List.mem_range] at ho
@@ -51,7 +51,7 @@ theorem stepLoc_freeAll (l : Loc) (h : LocInv l) :
   have h1 := h.curMax; have h2 := h.maxN; have h3 := h.tFit; have h4 := h.sizes
   have hc : l.lOff + l.cur ≤ l.lsize := by omega
   simp only [stepLoc, hb, hc, if_true, Bool.false_eq_true, if_false]
-  refine ⟨⟨rfl, Nat.le_refl _, Nat.zero_le _, h3, h4, h.sc, h.sm, h.slack, h.fr, h.frN⟩, ?_⟩
+  refine ⟨⟨rfl, Nat.le_refl _, Nat.zero_le _, h3, h4, h.lt, h.chain⟩, ?_⟩
   intro o ho
   simp at ho
   subst ho; exact okOut_ev (by decide) (by omega) (by omega)
@@ -74,13 +74,9 @@ theorem stepLoc_cleanup (l : Loc) (h : LocInv l) :
   have h1 := h.curMax; have h2 := h.maxN; have h3 := h.tFit; have h4 := h.sizes
   have hc : l.lOff + l.cur ≤ l.lsize := by omega
   simp only [stepLoc, hb, hc, if_true, Bool.false_eq_true, if_false]
-  refine ⟨⟨rfl, Nat.le_refl _, Nat.zero_le _, ?_, h4, ?_, ?_, ?_, ?_, ?_⟩, ?_⟩
+  refine ⟨⟨rfl, Nat.le_refl _, Nat.zero_le _, ?_, h4, Nat.le_refl _, ?_⟩, ?_⟩
   · simp; omega
-  · simp [sumC]
-  · simp [sumM]
-  · simp [sumC, sumM]
-  · simp
-  · simp
+  · simp [Chain]
   · intro o ho
     simp at ho
     subst ho; exact okOut_ev (by decide) (by omega) (by omega)
@@ -91,85 +87,53 @@ theorem stepLoc_enterLit (l : Loc) (h : LocInv l) :
   have hb := h.notBad
   have hlt := h.lOff_le_tOff
   have h1 := h.curMax; have h2 := h.maxN; have h3 := h.tFit; have h4 := h.sizes
-  have h5 := h.sc; have h6 := h.sm; have h7 := h.slack
+  have hch := h.chain
   simp only [stepLoc, hb, Bool.false_eq_true, if_false]
   by_cases hg : l.tsize ≤ l.tOff + l.max + l.N
   · have hc : l.lOff + l.cur ≤ l.lsize + l.N := by omega
     simp only [hg, if_true, hc]
-    refine ⟨⟨by first | rfl | exact hb, Nat.le_refl _, Nat.zero_le _, ?_, ?_, ?_, ?_, ?_, ?_, ?_⟩, ?_⟩
+    refine ⟨⟨by first | rfl | exact hb, Nat.le_refl _, Nat.zero_le _, ?_, ?_, ?_, ?_⟩, ?_⟩
     · simp; omega
     · simp; omega
-    · simp [sumC]; omega
-    · simp [sumM]; omega
-    · simp [sumC, sumM]; omega
-    · intro f hf
-      simp at hf
-      rcases hf with hf | hf
-      · subst hf; exact h1
-      · exact h.fr f hf
-    · intro f hf
-      simp at hf
-      rcases hf with hf | hf
-      · subst hf; exact h2
-      · exact h.frN f hf
+    · simp; omega
+    · simp only [Chain]
+      exact ⟨Nat.le_refl _, Nat.le_refl _, hlt, h1, h2, by omega,
+        chain_mono (by omega) l.frames (Nat.le_refl _) (Nat.le_refl _) hch⟩
     · intro o ho
       simp at ho
       rcases ho with ho | ho | ho | ho | ho <;> subst ho <;> exact okOut_ev (by decide) (by omega) (by omega)
   · have hc : l.lOff + l.cur ≤ l.lsize := by omega
     simp only [hg, if_false, hc, if_true]
-    refine ⟨⟨by first | rfl | exact hb, Nat.le_refl _, Nat.zero_le _, ?_, ?_, ?_, ?_, ?_, ?_, ?_⟩, ?_⟩
+    refine ⟨⟨by first | rfl | exact hb, Nat.le_refl _, Nat.zero_le _, ?_, ?_, ?_, ?_⟩, ?_⟩
     · simp; omega
     · simp; omega
-    · simp [sumC]; omega
-    · simp [sumM]; omega
-    · simp [sumC, sumM]; omega
-    · intro f hf
-      simp at hf
-      rcases hf with hf | hf
-      · subst hf; exact h1
-      · exact h.fr f hf
-    · intro f hf
-      simp at hf
-      rcases hf with hf | hf
-      · subst hf; exact h2
-      · exact h.frN f hf
+    · simp; omega
+    · simp only [Chain]
+      exact ⟨Nat.le_refl _, Nat.le_refl _, hlt, h1, h2, h3, hch⟩
     · intro o ho
       simp at ho
       rcases ho with ho | ho | ho <;> subst ho <;> exact okOut_ev (by decide) (by omega) (by omega)
-
 
 theorem stepLoc_leaveLit (l : Loc) (d : Nat) (h : LocInv l) :
     LocInv (stepLoc l (.leaveLit d)).1 ∧ ∀ o ∈ (stepLoc l (.leaveLit d)).2, okOut o = true := by
   have hb := h.notBad
   have hlt := h.lOff_le_tOff
   have h1 := h.curMax; have h2 := h.maxN; have h3 := h.tFit; have h4 := h.sizes
-  have h5 := h.sc; have h6 := h.sm; have h7 := h.slack
-  obtain ⟨a, b, e1, e2, hab⟩ := sum_drop d l.frames h.fr
+  have hch := chain_drop d l.frames h.chain
   simp only [stepLoc, hb, Bool.false_eq_true, if_false]
   cases hd : l.frames.drop d with
   | nil => exact ⟨h, by simp⟩
   | cons f rest =>
-    rw [hd] at e1 e2
-    simp only [sumC, sumM] at e1 e2
-    have hf : f ∈ l.frames := List.mem_of_mem_drop (by rw [hd]; exact List.mem_cons_self ..)
-    have hfr := h.fr f hf
-    have hrest : ∀ g ∈ rest, g.c ≤ g.m := fun g hg =>
-      h.fr g (List.mem_of_mem_drop (by rw [hd]; exact List.mem_cons_of_mem _ hg))
-    have hcm := sumC_le_sumM rest hrest
-    have hc1 : f.c ≤ l.lOff ∧ f.m ≤ l.tOff := by omega
-    have hc2 : l.lOff - f.c + f.c ≤ l.lsize := by omega
+    rw [hd] at hch
+    simp only [Chain] at hch
+    obtain ⟨c1, c2, c3, c4, c5, c6, crest⟩ := hch
+    have hc1 : f.lo + f.c ≤ l.lOff ∧ l.lOff ≤ l.lsize := by omega
+    have hc2 : f.lo + f.c ≤ l.lsize := by omega
     simp only [hc1, and_self, if_true, hc2]
-    have hfN := h.frN f hf
-    refine ⟨⟨rfl, hfr, hfN, ?_, h4, ?_, ?_, ?_, hrest, ?_⟩, ?_⟩
-    · simp; omega
-    · simp; omega
-    · simp; omega
-    · simp; omega
-    · exact fun g hg => h.frN g (List.mem_of_mem_drop (by rw [hd]; exact List.mem_cons_of_mem _ hg))
-    · intro o ho
-      simp at ho
-      rcases ho with ho | ho | ho | ho <;> subst ho <;> exact okOut_ev (by decide) (by omega) (by omega)
-
+    refine ⟨⟨rfl, c4, c5, c6, h4, c3, crest⟩, ?_⟩
+    intro o ho
+    simp at ho
+    rcases ho with ho | ho | ho | ho <;> subst ho <;> exact okOut_ev (by decide) (by omega) (by omega)
 
 theorem stepLoc_inv (l : Loc) (e : Ev) (h : LocInv l) :
     LocInv (stepLoc l e).1 ∧ ∀ o ∈ (stepLoc l e).2, okOut o = true := by
